@@ -1,6 +1,10 @@
 package main
 
 import (
+	"math"
+
+	"github.com/tobgu/qframe"
+	"github.com/tobgu/qframe/config/newqf"
 	"github.com/tobgu/qframe/internal/column"
 	"github.com/tobgu/qframe/internal/index"
 	qfsort "github.com/tobgu/qframe/internal/sort"
@@ -116,6 +120,9 @@ func genC03(g *Gen) {
 			g.end()
 		}
 	}
+	g.sortArranged(rid)
+	g.sortExtremes(rid)
+	g.sortTiePatterns(rid)
 	// adversarial inputs: quicksort killers for the sorter that is in the tree
 	for _, n := range []int{50, 100, 257, 1000, g.pick(2000, 5000)} {
 		vals := antiQuicksort(n)
@@ -125,5 +132,151 @@ func genC03(g *Gen) {
 		g.do(Step{Op: "Sort", Recv: f, Orders: []Order{{Col: toBS("K")}}, Rid: rid})
 		g.do(Step{Op: "Sort", Recv: f, Orders: []Order{{Col: toBS("K"), Rev: true}}, Rid: rid})
 		g.end()
+	}
+}
+
+// sortArranged: key columns whose STORAGE is already in order (or in reverse order) while the frame
+// order is any arrangement of it (all permutations of <= 4 rows, random ones above; slices), then sorted
+// both ways: what counts is the frame's order, not the storage's.
+func (g *Gen) sortArranged(rid BS) {
+	for _, n := range []int{2, 3, 4, 5, 8, 13, 20, 100} {
+		perms := permsOf(minI(n, 4))
+		if n > 4 {
+			perms = nil
+			for k := 0; k < g.pick(4, 20); k++ {
+				perms = append(perms, g.rng.Perm(n))
+			}
+		}
+		for _, perm := range perms {
+			ties := g.rng.Intn(3) == 0
+			desc := g.rng.Intn(3) == 0
+			k, p := make([]int64, n), make([]int64, n)
+			fl := make([]string, n)
+			st := make([]*BS, n)
+			for i := 0; i < n; i++ {
+				v := i
+				if ties {
+					v = i / 2
+				}
+				if desc {
+					v = n - v
+				}
+				k[i], fl[i], st[i] = int64(v), itoa(v)+".5", bsp(string(rune('a'+v%26))+itoa(v/26))
+				p[i] = int64(perm[i])
+			}
+			g.begin("sort arranged")
+			f := g.do(Step{Op: "New", Recv: -1, HasOrder: true, ColOrder: bsList([]string{"K", "F", "S", "P"}),
+				Data: []ColData{{Name: toBS("K"), Kind: "int", Ints: k}, {Name: toBS("F"), Kind: "float", Floats: fl}, {Name: toBS("S"), Kind: "string", Strs: st}, {Name: toBS("P"), Kind: "int", Ints: p}}})
+			f = g.do(Step{Op: "WithRowNums", Recv: f, Dst: rid})
+			arr := g.do(Step{Op: "Sort", Recv: f, Orders: []Order{{Col: toBS("P")}}, Rid: rid})
+			if n > 4 && g.rng.Intn(2) == 0 {
+				a := g.rng.Intn(n / 2)
+				arr = g.do(Step{Op: "Slice", Recv: arr, A: a, B: a + n/2})
+			}
+			for _, c := range []string{"K", "F", "S"} {
+				g.do(Step{Op: "Sort", Recv: arr, Orders: []Order{{Col: toBS(c)}}, Rid: rid})
+				g.do(Step{Op: "Sort", Recv: arr, Orders: []Order{{Col: toBS(c), Rev: true}}, Rid: rid})
+			}
+			g.do(Step{Op: "Sort", Recv: g.do(Step{Op: "Sort", Recv: arr, Orders: []Order{{Col: toBS("K"), Rev: true}}, Rid: rid}), Orders: []Order{{Col: toBS("K")}}, Rid: rid})
+			g.end()
+		}
+	}
+}
+
+// sortExtremes: keys at the ends of their type's range, where "x - y" is no comparison
+func (g *Gen) sortExtremes(rid BS) {
+	ints := []int64{math.MinInt64, math.MinInt64 + 1, -5000000000000000000, -(1 << 62), -1, 0, 1, 1 << 62, 5000000000000000000, math.MaxInt64 - 1, math.MaxInt64}
+	floats := []string{"-Inf", "-1.7976931348623157e308", "-1e300", "-5e-324", "-0", "0", "5e-324", "1e300", "1.7976931348623157e308", "+Inf", "NaN"}
+	for _, n := range []int{2, 3, 5, 10, 13, 16, 40, 100} {
+		for rep := 0; rep < g.pick(3, 12); rep++ {
+			k, fl := make([]int64, n), make([]string, n)
+			for i := range k {
+				k[i], fl[i] = ints[g.rng.Intn(len(ints))], floats[g.rng.Intn(len(floats))]
+			}
+			g.begin("sort extremes")
+			f := g.do(Step{Op: "New", Recv: -1, HasOrder: true, ColOrder: bsList([]string{"K", "F"}),
+				Data: []ColData{{Name: toBS("K"), Kind: "int", Ints: k}, {Name: toBS("F"), Kind: "float", Floats: fl}}})
+			f = g.do(Step{Op: "WithRowNums", Recv: f, Dst: rid})
+			for _, c := range []string{"K", "F"} {
+				g.do(Step{Op: "Sort", Recv: f, Orders: []Order{{Col: toBS(c), Rev: g.rng.Intn(2) == 0, NullLast: g.rng.Intn(2) == 0}}, Rid: rid})
+			}
+			g.do(Step{Op: "Sort", Recv: f, Orders: []Order{{Col: toBS("K")}, {Col: toBS("F"), Rev: true}}, Rid: rid})
+			g.end()
+		}
+	}
+}
+
+// sortTiePatterns: the partition step of the sorter (frames above its insertion-sort threshold of 12
+// rows) on heavily tied keys. The space of tie patterns is enumerated (every array of 13..16 rows over
+// two values, of 13 rows over three - all of 13, 14 in the thorough tier) by sorting each directly; a
+// scenario is recorded - and judged by the specification like any other - for every array whose result
+// looks out of order to a cheap scan, plus a sample of the rest. The scan only selects what is
+// forwarded; it decides nothing.
+func (g *Gen) sortTiePatterns(rid BS) {
+	type job struct{ n, base, limit int }
+	jobs := []job{{13, 2, 0}, {14, 2, 0}, {15, 2, 0}, {16, 2, 0}, {13, 3, g.pick(150000, 0)}, {14, 3, g.pick(150000, 0)}, {18, 3, g.pick(60000, 600000)}, {27, 4, g.pick(40000, 400000)}, {41, 5, g.pick(20000, 200000)}, {64, 3, g.pick(10000, 100000)}}
+	forwarded := 0
+	for _, jb := range jobs {
+		total := 1
+		exhaustive := jb.limit == 0
+		if exhaustive {
+			for i := 0; i < jb.n; i++ {
+				total *= jb.base
+			}
+		} else {
+			total = jb.limit
+		}
+		vals := make([]int, jb.n)
+		for code := 0; code < total; code++ {
+			if exhaustive {
+				c := code
+				for i := range vals {
+					vals[i] = c % jb.base
+					c /= jb.base
+				}
+			} else {
+				for i := range vals {
+					vals[i] = g.rng.Intn(jb.base)
+				}
+			}
+			qf := qframe.New(map[string]interface{}{"K": vals}, newqf.ColumnOrder("K"))
+			out := qf.Sort(qframe.Order{Column: "K"})
+			suspicious := out.Err != nil || out.Len() != jb.n
+			if !suspicious {
+				v := out.MustIntView("K")
+				cnt := make([]int, jb.base)
+				for i := 0; i < jb.n; i++ {
+					x := v.ItemAt(i)
+					if x < 0 || x >= jb.base || (i > 0 && v.ItemAt(i-1) > x) {
+						suspicious = true
+						break
+					}
+					cnt[x]++
+				}
+				for _, x := range vals {
+					cnt[x]--
+				}
+				for _, c := range cnt {
+					if c != 0 {
+						suspicious = true
+					}
+				}
+			}
+			if (suspicious && forwarded < 40) || (code%(total/25+1) == 0) {
+				if suspicious {
+					forwarded++
+				}
+				k := make([]int64, jb.n)
+				for i, x := range vals {
+					k[i] = int64(x)
+				}
+				g.begin("sort tie pattern")
+				f := g.do(Step{Op: "New", Recv: -1, Data: []ColData{{Name: toBS("K"), Kind: "int", Ints: k}}})
+				f = g.do(Step{Op: "WithRowNums", Recv: f, Dst: rid})
+				g.do(Step{Op: "Sort", Recv: f, Orders: []Order{{Col: toBS("K")}}, Rid: rid})
+				g.do(Step{Op: "Sort", Recv: f, Orders: []Order{{Col: toBS("K")}, {Col: rid, Rev: true}}, Rid: rid})
+				g.end()
+			}
+		}
 	}
 }
